@@ -433,7 +433,7 @@ def classify(w):
 
 
 def gen_after_loss(rng):
-    return {'link': rng.choice(['bytes', 'messages']), 'end': rng.choice(['eof', 'error', 'peer-close']),
+    return {'link': rng.choice(['bytes', 'messages']), 'end': rng.choice(['eof', 'error', 'peer-close', 'during-close']),
             'side': rng.choice('cs'), 'gap': rng.choice([0.0, 0.01, 0.5, 3.0]),
             'requests': [rng.choice(['rr', 'stream', 'channel', 'fnf']) for _ in range(rng.choice([1, 2, 3]))],
             'gap2': rng.choice([0.0, 0.01, 1.0]), 'before': rng.choice([[], ['rr'], ['stream']])}
@@ -483,16 +483,30 @@ async def _after_loss(rng, d):
     await asyncio.sleep(0.2)
     nbefore = len(made)
     world.log('connection_ends', how=d['end'])
-    if d['end'] == 'peer-close':
-        await p.ep(other).close()
+    if d['end'] == 'during-close':
+        # close() on a live connection whose on_close suspends; another task of the application issues requests
+        # while close() is still in progress
+        async def slow_on_close(rs):
+            await asyncio.sleep(0.3)
+
+        p.handlers[d['side']].on_close_hook = slow_on_close
+        world.log('explicit_close', who=d['side'])
+        closing = asyncio.ensure_future(ep.close())
+        await asyncio.sleep(0.1)
+        for kind in d['requests']:
+            issue(kind)
+        await closing
     else:
-        p.link.cut(d['end'])
-    await asyncio.sleep(d['gap'])
-    for kind in d['requests']:
-        issue(kind)
-    await asyncio.sleep(d['gap2'])
-    world.log('explicit_close', who=d['side'])
-    await ep.close()
+        if d['end'] == 'peer-close':
+            await p.ep(other).close()
+        else:
+            p.link.cut(d['end'])
+        await asyncio.sleep(d['gap'])
+        for kind in d['requests']:
+            issue(kind)
+        await asyncio.sleep(d['gap2'])
+        world.log('explicit_close', who=d['side'])
+        await ep.close()
     await asyncio.sleep(SETTLE)
     out = []
     for n, (kind, i, obj) in enumerate(made):
